@@ -294,6 +294,10 @@ func FOuts(p *Prog, cfg *FCfg, stage, phase string, args interface{}, outs []Fie
 		seed: fmt.Sprintf("%s|%s|%s|%x", cfg.Salt, stage, phase, hash64(Canon(args)))}
 	res := make(map[string]interface{}, len(outs))
 	for _, f := range outs {
+		if p.NullOuts[stage+"."+f.Name] {
+			res[f.Name] = nil
+			continue
+		}
 		res[f.Name] = g.value(f.T, f.Name)
 	}
 	return res
